@@ -67,6 +67,20 @@ class NetSession:
             return real_read(length)
 
         node._rf24.read = read
+        real_send, real_resend = node._rf24.send, node._rf24.resend
+
+        def send(buf, ask_no_ack=False, force_retry=0, send_only=False):
+            if self.closed:
+                self._run_others()
+            return real_send(buf, ask_no_ack, force_retry, send_only)
+
+        def resend(send_only=False):
+            if self.closed:
+                self._run_others()
+            return real_resend(send_only)
+
+        node._rf24.send = send
+        node._rf24.resend = resend
 
     def _run_others(self):
         w = self.world
